@@ -171,3 +171,17 @@ func hdrEquivalent(a, b *rtp.Header) bool {
 	}
 	return true
 }
+
+// legacyProfile draws an extension profile that is neither 0xBEDE nor 0x1000, with half of the mass on
+// the neighbours of those two values (same upper bits, same lower bits, +-1): a decoder that masks
+// or rounds the profile treats one of them as an RFC 8285 form.
+func legacyProfile(c *RNG) uint16 {
+	if c.Bool() {
+		return uint16(c.Pick(0x1001, 0x1002, 0x100F, 0x1010, 0x0FFF, 0x1100, 0x0000, 0x0001, 0xBEDF, 0xBEDD, 0xBED0, 0xBEEE, 0xBEDE^0x8000, 0xDEBE, 0x0010, 0xFFFF))
+	}
+	for {
+		if v := uint16(c.Intn(65536)); v != 0xBEDE && v != 0x1000 {
+			return v
+		}
+	}
+}
